@@ -164,6 +164,27 @@ RowsUlpEq(r1, r2) == /\ Len(r1) = Len(r2)
                      /\ \A k \in 1 .. Len(r1) : r1[k][1] = r2[k][1] /\ UlpClose(r1[k][2], r2[k][2])
 RowSorted(r) == \A k \in 1 .. Len(r) - 1 : r[k][1] < r[k + 1][1]
 
+\* "projection is linear": in particular homogeneous, and multiplication by a power of two is exact in binary floating
+\* point as long as nothing under- or overflows, so projecting 2^k x must give the results for x with the exponent shifted
+\* by k and the SAME mantissa and sign - for every magnitude of the input.  Ordered bits o of a normal float:
+\* |o| = exponent * 2^23 + mantissa.
+Pow23 == 8388608
+FExp(o) == Abs(o) \div Pow23
+FMant(o) == Abs(o) % Pow23
+ScaledBits(o2, o1, k) ==
+  IF o1 = 0 THEN o2 = 0
+  ELSE IF FExp(o1) >= 1 /\ FExp(o1) + k >= 1 /\ FExp(o1) + k <= 254
+       THEN (o2 > 0) = (o1 > 0) /\ FMant(o2) = FMant(o1) /\ FExp(o2) = FExp(o1) + k
+       ELSE TRUE      \* the scaled value would be denormal or overflow: not decided
+ScaledSeq(q2, q1, k) == Len(q2) = Len(q1) /\ \A i \in 1 .. Len(q1) : ScaledBits(q2[i], q1[i], k)
+\* rows (lists of <<voxel, ordered bits>>): entry by entry; an entry whose scaled value leaves the normal range may be absent
+RowOrd(r, v) == LET I == { j \in 1 .. Len(r) : r[j][1] = v } IN IF I = {} THEN 0 ELSE r[CHOOSE j \in I : TRUE][2]
+ScaledRow(r2, r1, k) ==
+  IF Len(r2) = Len(r1) /\ \A i \in 1 .. Len(r1) : r2[i][1] = r1[i][1]
+  THEN \A i \in 1 .. Len(r1) : ScaledBits(r2[i][2], r1[i][2], k)
+  ELSE /\ \A i \in 1 .. Len(r1) : (FExp(r1[i][2]) + k >= 1 /\ FExp(r1[i][2]) + k <= 254) => ScaledBits(RowOrd(r2, r1[i][1]), r1[i][2], k)
+       /\ \A i \in 1 .. Len(r2) : RowOrd(r1, r2[i][1]) # 0
+
 \* "the same data ... with the same settings", up to rounding of two different computations of an intersection length:
 \* RowTol of C03 (absolute 2^-14 + 2^-12 relative), in fixed-point units; a voxel present on one side only counts as 0
 RowAbsTol == 4
